@@ -116,6 +116,14 @@ XML_CONTEXTS = [
     'x{P}y', '<a{P}b/>', '<a {P}b="c"/>', '<a b="c{P}d"/>', "<a b='c{P}d'/>", '<a b=c{P}d/>', '<a>x{P}y</a>',
     '<!--a{P}b-->x', '<?pi a{P}b?>x', '<![CDATA[a{P}b]]>x', '<!DOCTYPE a{P}b>x', '<!DOCTYPE x{P}PUBLIC "p">y', '<!DOC{P}TYPE x>y',
     '&am{P}p;x', '&a{P}b', '&#{P}65;x', '&#x{P}41;x', '<a b="&am{P}p;"/>', '<a>&a{P}b</a>', '</a{P}>x', '{P}<a/>',
+    '<a b{P}="c"/>', '<a b={P}"c"/>', '<a b="c"{P}/>', '<a b="c" {P}d="e"/>', '<a/{P}>', '<{P}a/>', '</{P}a>', '<a:b{P}c/>',
+    '<!--{P}-->x', '<!-{P}-x-->', '<!--a-{P}b-->', '<!--a--{P}b-->x', '<!--a--{P}>x', '<?{P}pi x?>y', '<?pi{P}?>y', '<?pi {P}x?>y',
+    '<?pi x?{P}>y', '<?pi x{P}?>y', '<![CDATA[{P}]]>x', '<![CDATA[a]{P}]>x', '<![CDATA[a]]{P}>x', '<![CD{P}ATA[a]]>x', '<!{P}[CDATA[a]]>x',
+    '<!DOCTYPE{P} a>x', '<!DOCTYPE {P}a>x', '<!DOCTYPE a {P}>x', '<!DOCTYPE a PUBLIC{P} "p">x', '<!DOCTYPE a PUBLIC {P}"p">x',
+    '<!DOCTYPE a PUBLIC "p{P}q">x', "<!DOCTYPE a PUBLIC 'p{P}q'>x", '<!DOCTYPE a PUBLIC "p"{P} "s">x', '<!DOCTYPE a PUBLIC "p" "s{P}t">x',
+    '<!DOCTYPE a SYSTEM{P} "s">x', '<!DOCTYPE a SYSTEM "s"{P}>x', '<!DOCTYPE a SYS{P}TEM "s">x', '<!DOCTYPE a PUB{P}LIC "p">x',
+    '<!DOCTYPE a x{P}y>z', '<!DOCTYPE a [{P}]>x', '<!x{P}y>z', '&{P}x', '&amp{P};x', '&amp;{P}x', '&#65{P};x', '&#6{P}5;x', '&#x4{P}1;x',
+    '&#x41{P}x', '&no{P}tit;x', '&notit{P};x', '<a b="&a{P}b"/>', '<a b=&am{P}p;c/>', "<a b='&#{P}65;'/>", '<a b="x"/>{P}', '<a>{P}</a>{P}',
 ]
 
 
